@@ -524,6 +524,12 @@ fn worker_loop<F: Family>(
         let r = run_guarded(fam, case, &cx);
         *inflight.slots[w].lock().unwrap() = None;
         let excluded = cx.take_excluded();
+        if let Err(f) = &r {
+            if f.oracle == "INFRA" {
+                println!("INCONCLUSIVE property={property} family={}: infrastructure trouble: {}", Family::name(fam), f.detail);
+                std::process::exit(2);
+            }
+        }
         let r = match r {
             Err(f) if rc.known.is_known(property, &f.sig) => {
                 let mut acc = shared.acc.lock().unwrap();
